@@ -9,6 +9,20 @@ PY = "/venv/bin/python"
 CHECKS = {
     "C01": ("kernel-checked table theorems (all 442 shipped per-definition decoders = Spec.compileDec of their database entries; the three dictionaries = the database's enumerations; regenerated from pgns.py and canboat.json on every run) + generic Lean theorems about running a compiled decoder for EVERY entry and payload (header, field metadata in order, each statically positioned field = the database-derived codec at the field's own offset, locality in the field's bits, not-available <-> no value, totality for integer-resolution numbers in range) + correspondence of the interpreter/codec models with all real decoders on database-derived boundary payloads + a database-only oracle over the same payloads",
             "trusts the T1 translator (validated end-to-end), Spec.compile* as the reading of the database, hand models Codec/Interp tied by T3; non-ASCII/UTF-16 text decoding not modelled; totality for decimal resolutions rests on the oracle and correspondence, not on a theorem", "5 C01"),
+    "C02": ("kernel-checked table theorems (shipped encoders and decoders = compiled database) + Lean theorems: per-kind decode->encode round trips on the codec models (numbers up to 48 bits with integer or decimal resolution and Offset, not-available, lookups, reserved, dates, TIME/DURATION tick counts incl. signed), OR-accumulation read-back, and the message-level C02_roundtrip for the 260 well-formed encodable definitions (the 3 others are named by C02_db_coverage) + correspondence of all 418 encoders + a decode->encode oracle over every encodable definition (every raw value for fields up to 10 bits)",
+            "trusts the T1 translator and Spec.compile*; hand models Codec/Interp tied by T3; fields wider than 48 bits rest on oracle + correspondence (one known finding at the end of a 64-bit range)", "5 C02"),
+    "C09": ("Lean theorems on the encoder model: a NUMBER is encoded as the nearest tick inside the representable range, out-of-range and non-finite values are rejected, absent <-> absent, a missing field is an error, changing one field changes only its bits; exactness of LOOKUP/RESERVED/DATE/TIME raws only under an explicit `fits` hypothesis (partial) + table theorems + correspondence over the value classes of the quantifier + an encode->decode oracle",
+            "PARTIAL: the full property is false of this code for non-NUMBER kinds (masked, not rejected) and for reserved NUMBER codes — 8 known findings keyed by field kind", "5 C09"),
+    "C10": ("Lean theorem C10_selection over the hand model of NMEA2000Decoder: for every user filter configuration and every input history, position by position, the filtered output is exactly the permitted part of the unfiltered output and the source maps are equal (simulation proof by induction), for any generated layer satisfying GenOk; + correspondence of the decoder model on random histories under 29 configurations + filtered-vs-unfiltered monitor on the real decoder",
+            "hand model Decoder tied by T3; GenOk facts come from the regenerated tables", "5 C10"),
+    "C11": ("Lean theorems over the decoder model: a claim changes only its own address's identity, only claims change the source map, every returned message carries the source map's identity for its source right after the step, manufacturer exclude/include lists (unknown code passes no include list), discovery window, and no leak for every history; + history correspondence + identity monitor on the real decoder",
+            "hand model tied by T3; the 10-minute window is a Boolean input", "5 C11"),
+    "C16": ("Lean theorems over the decoder model: a single-frame probe's result depends only on configuration, input and source identity; ignored/rejected input leaves reassembly table and source map untouched; fast frames touch only their own stream; a complete fast-packet message with a fresh counter decodes, after ANY history, to what its pre-assembled payload decodes to (also the frame-wise = pre-assembled clause of C07); isolation between live instances is VALIDATED by multi-instance correspondence",
+            "isolation proper rests on T3 (several real decoders/encoders alive, each compared with its own model instance), not on a theorem", "5 C16"),
+    "C17": ("Lean theorems over Dec.hashKey: key = id and primary-key raws only (congruence), unit preferences and everything else irrelevant, no hash with mapping off, key injective for underscore-free ids and integer keys; kernel-checked database facts (no id contains '_', primary-key kinds) and the C01 tables pinning the primary-key flags; correspondence hashes the model's key with hashlib and compares digests",
+            "PARTIAL: MD5 collision-freedom is not a theorem (named gap); four trailing STRING_LAU station-id keys are outside the injectivity theorem", "5 C17"),
+    "C18": ("Lean theorems over Dec.applyUnits: frame rule (only value and unit change; raw, metadata, order, message attributes untouched), untouched without a recognised preference, absent stays absent, case-insensitive matching, decoding with preferences = conversion of decoding without, bar exact, Celsius accuracy bound; database fact: all convertible quantities are NUMBER fields; correspondence of the six conversion functions over the quantity fields' ranges",
+            "conversion arithmetic modelled as rationals + round-to-nearest-even, tied by T3; accuracy bounds are proved for Celsius and bar only, the others rest on the monitor", "5 C18"),
     "C03": ("Lean 4 theorems over the hand model Fast (frames well-formed, counter advance, in-order round trip from any admissible stream state, consecutive messages) + exhaustive correspondence of the model with _encode_fast_message/_decode_fast_message over all 224 lengths x 8 counters",
             "hand model tied by T3 differential runs; the per-PGN decode step is replaced by a payload capture", "2.2, 5 C03"),
     "C04": ("Lean 4 theorems: stream independence of the keyed table for every interleaving (C04_interleaving), exactness within a message under any permutation/duplication/loss of later frames incl. padding (C04_exact), clean restart after loss (C04_after_segment); correspondence on enumerated and random multi-stream histories",
